@@ -142,7 +142,11 @@ func exprD(v ssa.Value, d int, seen map[ssa.Value]bool) string {
 		}
 		return x.Op.String() + exprD(x.X, d-1, seen)
 	case *ssa.BinOp:
-		return paren(exprD(x.X, d-1, seen)) + " " + x.Op.String() + " " + paren(exprD(x.Y, d-1, seen))
+		l, r := x.X, x.Y
+		if (x.Op == token.EQL || x.Op == token.NEQ) && isConst(l) && !isConst(r) {
+			l, r = r, l // constants on the right, as in normalised conditions
+		}
+		return paren(exprD(l, d-1, seen)) + " " + x.Op.String() + " " + paren(exprD(r, d-1, seen))
 	case *ssa.ChangeType:
 		return exprD(x.X, d, seen)
 	case *ssa.Convert:
@@ -281,6 +285,12 @@ type NormCond struct {
 	Pol  bool
 	Val  ssa.Value // the value tested after stripping negations
 	Atom string    // identity of the tested fact: same operands (SSA values) and same normal operator
+	Alt  string    // for ==/!= between two non-constant operands: the same test with the operands swapped
+}
+
+// Matches reports whether the pattern matches the condition in either operand order.
+func (n NormCond) Matches(re interface{ MatchString(string) bool }) bool {
+	return re.MatchString(n.Base) || (n.Alt != "" && re.MatchString(n.Alt))
 }
 
 func valKey(v ssa.Value) string {
@@ -314,23 +324,30 @@ func normalizeWith(v ssa.Value, Expr func(ssa.Value) string) NormCond {
 			if _, isC := b.X.(*ssa.Const); isC {
 				x, y = y, x
 			}
-			return NormCond{paren(x) + " == " + paren(y), pol, v, eqKey(b)}
+			return NormCond{paren(x) + " == " + paren(y), pol, v, eqKey(b), altEq(b, x, y)}
 		case token.NEQ:
 			if _, isC := b.X.(*ssa.Const); isC {
 				x, y = y, x
 			}
-			return NormCond{paren(x) + " == " + paren(y), !pol, v, eqKey(b)}
+			return NormCond{paren(x) + " == " + paren(y), !pol, v, eqKey(b), altEq(b, x, y)}
 		case token.LSS:
-			return NormCond{paren(x) + " < " + paren(y), pol, v, valKey(b.X) + "<" + valKey(b.Y)}
+			return NormCond{paren(x) + " < " + paren(y), pol, v, valKey(b.X) + "<" + valKey(b.Y), ""}
 		case token.GTR:
-			return NormCond{paren(y) + " < " + paren(x), pol, v, valKey(b.Y) + "<" + valKey(b.X)}
+			return NormCond{paren(y) + " < " + paren(x), pol, v, valKey(b.Y) + "<" + valKey(b.X), ""}
 		case token.LEQ: // x <= y  ==  !(y < x)
-			return NormCond{paren(y) + " < " + paren(x), !pol, v, valKey(b.Y) + "<" + valKey(b.X)}
+			return NormCond{paren(y) + " < " + paren(x), !pol, v, valKey(b.Y) + "<" + valKey(b.X), ""}
 		case token.GEQ: // x >= y  ==  !(x < y)
-			return NormCond{paren(x) + " < " + paren(y), !pol, v, valKey(b.X) + "<" + valKey(b.Y)}
+			return NormCond{paren(x) + " < " + paren(y), !pol, v, valKey(b.X) + "<" + valKey(b.Y), ""}
 		}
 	}
-	return NormCond{Expr(v), pol, v, valKey(v)}
+	return NormCond{Expr(v), pol, v, valKey(v), ""}
+}
+
+func altEq(b *ssa.BinOp, x, y string) string {
+	if isConst(b.X) || isConst(b.Y) {
+		return ""
+	}
+	return paren(y) + " == " + paren(x)
 }
 
 func eqKey(b *ssa.BinOp) string {
